@@ -24,6 +24,18 @@ def rand_script(rng, maxlen=12):
     return ",".join(out) if out else "-"
 
 
+def zero_run_scripts(rng):
+    """reader scripts with LONG runs of zero-length reads (a reader may return 0, nil any number of times: an io.Pipe fed
+    with empty messages does): before the first prefix byte, between the bytes of a prefix, inside the data, before EOF.
+    Helpers that give up after a fixed number of empty reads (bufio's 100) show only here."""
+    out = []
+    for k in (99, 100, 101, 150, 257):
+        z = ",".join(["0"] * k)
+        out += [z + ",1," + z + ",1," + z + ",2", z + ",1000", "1," + z + ",1," + z, z + ",3E", "2," + z + ",1E"]
+    out.append(",".join(["0"] * rng.randrange(100, 400) + ["1"] + ["0"] * rng.randrange(100, 400) + ["5"]))
+    return out
+
+
 # padding sizes: the prefix-size boundaries of one padding chunk (64+1, 8192+2; a three-byte padding prefix would start at
 # 8192+3), WritePadding's batch size (1024 in the pinned code) and its multiples, and sizes far above any batch size
 PAD_BOUND = [0, 1, 2, 3, 63, 64, 65, 66, 1023, 1024, 1025, 1026, 2048, 2049]
@@ -211,6 +223,9 @@ def gen(ctx):
     for n in PAD_BIG + list(range(8200, 8200 + (8 if not thorough else 200))) + [rng.randrange(8195, 300000) for _ in range(10 if not thorough else 100)]:
         add("pad %d" % n, "pad-big")
         add("pad %d %s" % (n, rand_script(rng, 8)), "pad-big")
+    for sc in zero_run_scripts(rng):
+        for its in ("dx41,dx4243", "dg64.1,dx,dg300.2", "p3,dx41,p70,dg8192.5"):
+            add("rt %s %s" % (its, sc), "rt-long-zero-run")
     for n in PAD_BIG:
         add("rt dx41,p%d,dx4243 -" % n, "rt-bigpad")
         add("rt p%d,dg%d.1,p%d %s" % (n, rng.choice([0, 1, 63, 64, 200]), rng.choice(PAD_BIG), rand_script(rng)), "rt-bigpad")
@@ -311,6 +326,9 @@ def gen_pc(ctx):
         its, _ = rand_items(rng, bigpad=True)
         add("pc %s %s %d" % (its, rand_script(rng), rng.choice([0, 1, 63, 64, 1200, 1500, 65536])), "pc-bigpad")
     add("pc dg1048576.1 - 10", "pc-toolong")
+    for sc in zero_run_scripts(rng):
+        for its in ("dx41,dx4243", "dg64.1,dx,dg300.2", "p3,dx41,p70,dg8192.5"):
+            add("pc %s %s %d" % (its, sc, rng.choice([64, 1500, 10000])), "pc-long-zero-run")
     return lines, kinds
 
 
@@ -381,7 +399,7 @@ def _smux(cmd, sid, data=b""):
     return struct.pack("<BBHI", 2, cmd, len(data), sid) + data
 
 
-def srv_base(rng, idx, applen, first):
+def srv_base(rng, idx, applen, first, seg_choices=(1, 7, 8, 20, 60, 300), frame_choices=(1, 3, 16, 100, 400)):
     """one session: label (4-byte scenario id, session 0) + application bytes, as smux frames in KCP segments; the items
     of the carrier stream: every segment one data chunk, paddings in between. first = what follows the preamble:
     'data', 'pad' (a padding, then data) or 'empty' (an empty data chunk, which the packet layer ignores, then data)"""
@@ -392,12 +410,12 @@ def srv_base(rng, idx, applen, first):
     stream = _smux(0, 3) + _smux(2, 3, app[:5])
     pos = 5
     while pos < len(app):
-        n = rng.choice([1, 3, 16, 100, 400])
+        n = rng.choice(list(frame_choices))
         stream += _smux(2, 3, app[pos:pos + n])
         pos += n
     segs, pos = [], 0
     while pos < len(stream):
-        n = max(rng.choice([1, 7, 8, 20, 60, 300]), 21 if pos == 0 else 1)
+        n = max(rng.choice(list(seg_choices)), 21 if pos == 0 else 1)
         segs.append(_kcp_seg(conv, len(segs), stream[pos:pos + n], ts=rng.getrandbits(20)))
         pos += n
     items = []      # (hex on the wire, packet hex or None)
@@ -441,33 +459,47 @@ def gen_server(ctx):
     bases = [(1, "data"), (200, "pad"), (60, "empty"), (300, "data")]
     if ctx.tier == "thorough":
         bases += [(rng.choice([1, 5, 40, 200, 700, 1500]), rng.choice(["data", "pad", "empty"])) for _ in range(25)]
+    def mk(b, c, first, tag=""):
+        wire = SRV_TOKEN + b["cid"] + "".join(h for h, _ in b["items"])
+        total = len(wire) // 2
+        if callable(c):
+            ilen = [len(h) // 2 for h, _ in b["items"]]
+            c = c(total, ilen)
+        sizes, left = [], total
+        for n in c:
+            n = min(n, left)
+            if n > 0:
+                sizes.append(n); left -= n
+        if left > 0:
+            sizes.append(left)
+        ops, pos = ["i" + b["sid"], "n"], 0
+        for n in sizes:
+            ops.append("r0:x" + wire[2 * pos:2 * (pos + n)])
+            pos += n
+        ops[-1] += "@a1@t%d" % (len(b["app"]) - 5)
+        scen.append(dict(line="carrierlayer move " + ",".join(ops),
+                         mline="%s srv x%s %s" % (AREA, wire, ",".join(map(str, sizes))),
+                         kind="server-%s-first:%s" % (first, tag or ("one-message" if len(sizes) == 1 else
+                                                      "coalesced" if any(a < 16 < a + n for a, n in zip(_starts(sizes), sizes)) else "split-at-boundary")),
+                         cid=b["cid"], packets=[p for _, p in b["items"] if p is not None], app=b["app"].hex(), sizes=sizes))
+
     for applen, first in bases:
         ncuts = len(srv_cuts(random.Random(0), 100, 10, 10))
         for ci in range(ncuts):
             # every scenario has its own id, ClientID, conversation and segmentation (they run concurrently against one server)
             b = srv_base(rng, idx, applen, first)
             idx += 1
-            wire = SRV_TOKEN + b["cid"] + "".join(h for h, _ in b["items"])
-            total = len(wire) // 2
-            ilen = [len(h) // 2 for h, _ in b["items"]]
-            c = srv_cuts(rng, total, ilen[0], ilen[1] if len(ilen) > 1 else 0)[ci]
-            sizes, left = [], total
-            for n in c:
-                n = min(n, left)
-                if n > 0:
-                    sizes.append(n); left -= n
-            if left > 0:
-                sizes.append(left)
-            ops, pos = ["i" + b["sid"], "n"], 0
-            for n in sizes:
-                ops.append("r0:x" + wire[2 * pos:2 * (pos + n)])
-                pos += n
-            ops[-1] += "@a1@t%d" % (len(b["app"]) - 5)
-            scen.append(dict(line="carrierlayer move " + ",".join(ops),
-                             mline="%s srv x%s %s" % (AREA, wire, ",".join(map(str, sizes))),
-                             kind="server-%s-first:%s" % (first, "one-message" if len(sizes) == 1 else
-                                                          "coalesced" if any(a < 16 < a + n for a, n in zip(_starts(sizes), sizes)) else "split-at-boundary"),
-                             cid=b["cid"], packets=[p for _, p in b["items"] if p is not None], app=b["app"].hex(), sizes=sizes))
+            mk(b, lambda total, ilen, ci=ci: srv_cuts(rng, total, ilen[0], ilen[1] if len(ilen) > 1 else 0)[ci], first)
+    # WebSocket messages longer than anything the Go proxy's writeLoop sends (2048 bytes): several chunks, or a chunk and
+    # a part of the next, coalesced into one message by the peer (a browser proxy forwards whole WebRTC messages)
+    big = [[], [2048], [2049], [16, 2049], [2047, 2050], [4097], [1, 4096], [16, 2048, 2048], [3000, 1, 3000]]
+    if ctx.tier == "thorough":
+        big += [[rng.choice([2040, 2048, 2049, 2100, 4095, 4096, 4097, 8192, 9000]) for _ in range(rng.choice([1, 2, 3]))] for _ in range(20)]
+    for c in big:
+        first = rng.choice(["data", "pad", "empty"])
+        b = srv_base(rng, idx, rng.choice([6000, 9000]), first, seg_choices=(300, 700, 1200), frame_choices=(400, 1000, 1100))
+        idx += 1
+        mk(b, c, first, tag="long-message")
     return scen
 
 
